@@ -243,7 +243,7 @@ fn c05_check(pos: &str, tmpl: &str, slot: Slot, lit: &str, int: Option<i128>, re
 
 const REALS: &[&str] = &[
     "1.", ".5", "1.5", "0.0", "1e3", "1E+3", "1.5e-3", "1e-400", "1e400", "4.9e-324", "2.5e-324", "1.7976931348623157e308", "1.7976931348623159e308", "0.1", "1_0.2_5", "00.5", "123456789012345678901234567890.0", "9007199254740993.0",
-    "9223372036854775808.0", "0.30000000000000004", "1e22", "1e23", "5e-1", "1_0e1_0",
+    "9223372036854775808.0", "0.30000000000000004", "1e22", "1e23", "5e-1", "1_0e1_0", "2E3", "4E-2", "1_5E+1", "2e3",
     // more than 19 significant digits, at and next to the midpoint of two adjacent doubles (exact ties,
     // one unit above, one unit below): the digits beyond the 19th decide the rounding
     "1.00000000000000011102230246251565404236316680908203125", "1.000000000000000111022302462515654042363166809082031251", "1.000000000000000111022302462515654042363166809082031249", "1.00000000000000077715611723760957829654216766357421875", "1.000000000000000777156117237609578296542167663574218751", "1.000000000000000777156117237609578296542167663574218749", "0.100000000000000012490009027033011079765856266021728515625", "0.1000000000000000124900090270330110797658562660217285156251", "0.1000000000000000124900090270330110797658562660217285156249", "0.0000100000000000000016650634863946134345269456389360129833221435546875", "0.00001000000000000000166506348639461343452694563893601298332214355468751", "0.00001000000000000000166506348639461343452694563893601298332214355468749", "123456.7890000000115833245217800140380859375", "123456.78900000001158332452178001403808593751", "123456.78900000001158332452178001403808593749", "10000000000000001048576.0", "10000000000000001048576.01", "0.000100000000000000011102230246251565404236316680908203126E+4",
@@ -266,7 +266,7 @@ pub static C05: PropDef = PropDef {
     id: "C05",
     level: "exploration",
     engine: "sweep",
-    rule: "generated literals with value known by construction: 13 magnitudes (0 .. 2^31, 2^53+1, 2^63-1, 2^63, 2^63+1, 2^64-1, 2^64, 10^19, 10^20; thorough: every 2^k and 2^k+-1 for k <= 65 and every 10^k for k <= 21, ~220 magnitudes) x {dec, 0b, 0o, 0x} x prefix/digit case x 4 separator patterns x leading zeros x sign {none,-,+} x 25 operand positions (classical operands, CALL immediate, 7 expression positions, permutation entries, PRAGMA, memory index, qubit, DECLARE length, OFFSET); 42 real spellings (incl. 18 with 25-73 significant digits at and next to midpoints of adjacent doubles) x 3 signs x 11 positions. Accepted => operand equals the mathematical value with the literal kind preserved. non-trivial = accepted literal (distinct by text)",
+    rule: "generated literals with value known by construction: 13 magnitudes (0 .. 2^31, 2^53+1, 2^63-1, 2^63, 2^63+1, 2^64-1, 2^64, 10^19, 10^20; thorough: every 2^k and 2^k+-1 for k <= 65 and every 10^k for k <= 21, ~220 magnitudes) x {dec, 0b, 0o, 0x} x prefix/digit case x 4 separator patterns x leading zeros x sign {none,-,+} x 25 operand positions (classical operands, CALL immediate, 7 expression positions, permutation entries, PRAGMA, memory index, qubit, DECLARE length, OFFSET); 46 real spellings (incl. upper- and lower-case exponents without a fraction, and 18 with 25-73 significant digits at and next to midpoints of adjacent doubles) x 3 signs x 11 positions. Accepted => operand equals the mathematical value with the literal kind preserved. non-trivial = accepted literal (distinct by text)",
     assumptions: &["reference value of a real literal = Rust's correctly rounded str::parse::<f64> of the digits without separators"],
     run: |ctx| {
         let mut mags: Vec<u128> = MAGS.to_vec();
